@@ -59,11 +59,14 @@ static int32_t
 _grow_bin_array(struct qb_array * a, size_t new_bin_size)
 {
 	size_t b;
+	void **bin;
 
-	a->bin = realloc(a->bin, sizeof(void*) * new_bin_size);
-	if (a->bin == NULL) {
+	bin = realloc(a->bin, sizeof(void*) * new_bin_size);
+	if (bin == NULL) {
+		/* the old table (and every element) stays valid */
 		return -ENOMEM;
 	}
+	a->bin = bin;
 	for (b = a->num_bins; b < new_bin_size; b++) {
 		a->bin[b] = NULL;
 	}
